@@ -151,7 +151,11 @@ func (e *Explorer) Run() {
 		c.Inconclusive("fresh file does not parse (C06 decides this): " + err.Error())
 		return
 	}
-	r0, _ := f0.Rings()
+	r0, err := f0.Rings()
+	if err != nil {
+		c.Inconclusive("fresh file is not well-formed (C06 decides this): " + err.Error())
+		return
+	}
 	st0 := AState{Bytes: fresh, Now: e.Now0}
 	seen := map[string]bool{st0.Key(): true}
 	core := []coreState{{st0, r0, ""}}
